@@ -16,7 +16,8 @@ LEVEL = ("Static sanitiser analysis of every write of a transformation scale: th
          " Added: the running-moment update is translation invariant as a polynomial identity (R8); the kernels called by the transformation code visit every element once and take ln / is_finite per element (R9)."
          " Added (round 4): no f64 -> f32 narrowing anywhere in the numeric path (R12, positive control planted)."
          " Added (round 5): the diagonal adapt() does not gate the update kernels behind a whole-vector finiteness test (R13)."
-         " Added (round 6): with three or more draws adapt() updates - its only way to return without a mutator is the too-few-draws edge (R2, converse clause); draw / gradient estimator pairs receive the same operations in every method (R14); mass-matrix and window options reach the strategy as set (R15, rules/convert.py); every transition registers its draw with the collector on every path to Ok (R16).")
+         " Added (round 6): with three or more draws adapt() updates - its only way to return without a mutator is the too-few-draws edge (R2, converse clause); draw / gradient estimator pairs receive the same operations in every method (R14); mass-matrix and window options reach the strategy as set (R15, rules/convert.py); every transition registers its draw with the collector on every path to Ok (R16)."
+         " Added (round 7): a running estimator is restarted as a whole - count is stored only as count + 1 or together with a write of the accumulator (R17).")
 EXPLANATION = ("Abstract interpretation (rules/absf.py) of the per-element closures in the CpuMath kernels on HIR with branch refinement by is_finite / == 0 "
                "tests; interprocedural constant collection for clamp / fill parameters over MIR call sites; dominance for the guards.")
 TRUSTED = ["rustc nightly HIR/MIR", "nutsfacts extractor", "rules/absf.py, rules/c08.py",
